@@ -152,6 +152,12 @@ CHECKS = {
         note='Trusted: the reference model as the reading of the statement; become() explored only for childless '
              'replacement nodes (documented use).',
         design_ref='4 C14'),
+    'C17': dict(
+        level='exploration',
+        technique='exhaustive product enumeration of small explicit inputs (all summary matrices over a 3-value grid, every placement of <= 2-3 non-finite entries, affine maps, name/API variants, object-reuse sequences, all discrepancy / n_sim / weight / order combinations) on the real adjust_posterior / LinearAdjustment / compare_models, decided by numpy.linalg.lstsq and an exact rational reference',
+        text='Every case inside the bound runs on the real code: adjusted values equal theta - (S - s_obs) beta from lstsq on the rows finite for that parameter, output length/order equal the finite rows, rows at the observed summaries are unchanged, the result is invariant under invertible affine re-expression and summary reordering, a reused adjustment object equals a fresh one; compare_models sums to one, equals share/n_sim x weight normalised (exact rationals), permutes with the models, and on a tie at the cut corresponds to some valid split.',
+        note='Trusted: numpy.linalg.lstsq and fractions. Scalar parameters/summaries, small well-conditioned data, rtol 1e-8; rank-deficient finite rows: any least-squares slope accepted; a parameter with no finite row may raise; no nan in compared discrepancies.',
+        design_ref='4 C17'),
     'C15': dict(
         level='model_checking',
         technique='explicit-state BFS to closure over the real get_sub_seed cache states (all index requests in every '
